@@ -41,6 +41,14 @@ func (v *View) Print(n int) error {
 		begin = 0
 	}
 	end := begin + n
+	if l := v.Lines.Len(); end > l {
+		// Show as many lines above the cursor as possible if there are
+		// not enough lines below it.
+		end = l
+		if begin = end - n; begin < 0 {
+			begin = 0
+		}
+	}
 
 	for i := begin; i < end; i++ {
 		fmt.Print(v.Format(i))
